@@ -13,10 +13,10 @@ def _note(pid):
 
 # property -> (level text, level note)
 _T = {
- "C01": "dataReader.Read on every octet stream up to the stated length (symbolic octets; every combination of network segmentation and backend buffer size; end of input alone or together with the last octets) against a reference unstuffer written from the statement, the same differential through the whole server, and two messages in a row on one connection (each read as its own octets whatever became of the other).",
- "C02": "The real server loop on DATA bodies with a bait command and arbitrary octets around a '.', every backend read / return behaviour (incl. the library's own sentinel errors), size limits around the message, SMTP and both LMTP flavours; read deadlines expiring in front of every message octet.",
+ "C01": "dataReader.Read on every octet stream up to the stated length (symbolic octets; every combination of network segmentation and backend buffer size; end of input alone or together with the last octets) against a reference unstuffer written from the statement, the same differential through the whole server, two messages in a row on one connection (each read as its own octets whatever became of the other), and a message of short lines under a small line-length limit cut anywhere.",
+ "C02": "The real server loop on DATA bodies with a bait command and arbitrary octets around a '.', every backend read / return behaviour (incl. the library's own sentinel errors), size limits around and anywhere inside the message, SMTP and both LMTP flavours; read deadlines expiring in front of every message octet.",
  "C03": "All command histories of the stated length over a 22-command alphabet (incl. chunked transfers) against a reference transaction state machine, from the initial state, from inside an open transaction, one inductive step from an arbitrary state; transaction isolation and greeting equivalence with the real code as its own oracle; the plaintext continuation after a failed STARTTLS handshake judged session object by session object.",
- "C04": "One reply per command, strict reply grammar, own verdict: arbitrary command lines, pipelined against lock-step histories, seven conversations under arbitrary cuts, backend errors of every shape, stale verdicts of aborted deliveries, read failures inside AUTH, inside command lines and inside DATA bodies, connection B after connection A on one server, two messages in a row each sent and ended in every way.",
+ "C04": "One reply per command, strict reply grammar, own verdict: arbitrary command lines, pipelined against lock-step histories, seven conversations under arbitrary cuts, backend errors of every shape, stale verdicts of aborted deliveries, read failures inside AUTH, inside command lines and inside DATA bodies, connection B after connection A on one server, two messages in a row each sent and ended in every way, short lines behind a chunk in one read.",
  "C05": "BDAT framing through the real handleBdat, delivery goroutine and io.Pipe: refusals whose chunk is a command line, all small chunkings, refusals in mid-transfer, cut and late chunks, size syntax, DATA against BDAT on the same message, and the line limiter around chunks under five segmentations.",
  "C06": "One-step inductive harnesses on the DATA reader's 64-bit budget and on the BDAT running total from an arbitrary state; whole transactions (first and second on a connection, DATA and chunked, each ending in five ways) with N around the message size; SIZE= and BDAT sizes at every integer boundary.",
  "C07": "Every cut offset of DATA and BDAT conversations with arbitrary octets, three kinds of connection end, size limits inside the message, backends that read again after an error, deadlines expiring inside chunks, abandoning commands incl. STARTTLS, huge announced sizes.",
@@ -26,13 +26,13 @@ _T = {
  "C11": "MAIL/RCPT lines: all short strings over an alphabet in three frames, octet mutations of valid paths and parameter templates (one and two hexchars), quoted local parts, several parameters under both map orders, source routes, SIZE at integer boundaries, a second MAIL without a reset in between, letter case of every keyword - against an independent narrow reference grammar.",
  "C12": "The complete configuration space x 15 probes (each in both letter cases) through handleGreet and the handlers against an independent capability list, incl. behaviour after a failed STARTTLS and after AUTH, greeting sequences (HELO/EHLO in every order), and which directions run under a deadline after STARTTLS; the TLS-active part on the stub.",
  "C13": "LMTP final replies for every recipient list over two addresses and every contract-conforming script of SetStatus calls, return value, panic, early failure; DATA and BDAT; pre-empted delivery goroutine; three messages in a row; recipients differing only in case; the LMTP server against the SMTP server on the same message.",
- "C14": "xtext and utf-8-addr codecs on ONE symbolic Unicode scalar (a handful of paths decide all scalar values) and on short strings; the whole option struct's trip client line -> real server -> backend, incl. look-alike escapes, non-ASCII AUTH identities and options across calls.",
+ "C14": "xtext and utf-8-addr codecs on ONE symbolic Unicode scalar (a handful of paths decide all scalar values) and on short strings; the whole option struct's trip client line -> real server -> backend, incl. look-alike escapes, non-ASCII AUTH identities, options across calls and across a refused call retried.",
  "C15": "Client.Mail/Rcpt/Hello/Verify with one hostile argument of arbitrary octets at a time and a symbolic capability map; state after a refused call (incl. what the next Mail/Rcpt writes, on the same or another client); Auth with a hostile mechanism name; capabilities after a real re-greeting (subset, bare, refused with HELO fallback).",
  "C16": "Client DATA writer and real server composed: arbitrary bodies in three Write calls, the wire cut at arbitrary offsets on the server side, recipient lists with repeats, per-recipient verdicts with replies in one or many reads, a follow-up command, two messages through one client connection, SendMail against the explicit calls.",
  "C17": "Backend errors from the four callbacks with symbolic reply code, enhanced code set / unset / absent and arbitrary text octets: strict grammar on the wire, then through the real client; look-alike codes, two refusals in a row, refusals of DATA and chunked messages following an earlier message that ended in any way, reply stream under arbitrary cuts.",
  "C18": "LMTP client against a scripted peer over consecutive transactions with arbitrary accept / refuse patterns, verdicts (code, enhanced code and one- or two-line text of each recipient's own reply) and ways of opening the writer, replies in one or many reads; a transaction after an arbitrary earlier one against the same transaction on a fresh client; recipients that are equal or differ only in letter case.",
- "C19": "Arbitrary command lines (7-bit, one arbitrary scalar, one arbitrary high octet); lines around MaxLineLength at six positions incl. around BDAT chunks and behind a SASL exchange under three segmentations; the limiter as an inductive step for every limit; the error threshold under mixed malformed input and across STARTTLS; grammar-derived lines for every argument parser with any one position replaced by any octet, deleted or doubled.",
- "C20": "Serve over arbitrary Accept result sequences followed by Close or Shutdown on the engine's cooperative scheduler (deadlock = all goroutines blocked, leak = goroutines alive), a stop call racing with Serve itself, and connection scenarios (incl. STARTTLS overlapping Server.Close, two chunked messages in a row) under a vector-clock happens-before monitor over go-smtp's own loads and stores (incl. append's element writes and sync.WaitGroup's Add-before-Wait rule); unlisted races are additionally looked for with the Go race detector on the natively compiled harness. A bounded check of the happens-before discipline on explored schedules, not a race-freedom proof.",
+ "C19": "Arbitrary command lines (7-bit, one arbitrary scalar, one arbitrary high octet); lines around MaxLineLength at six positions incl. around BDAT chunks and behind a SASL exchange under three segmentations; the limiter as an inductive step for every limit; the error threshold under mixed malformed input and across STARTTLS; BDAT in every state; grammar-derived lines for every argument parser with any one position replaced by any octet, deleted or doubled.",
+ "C20": "Serve over arbitrary Accept result sequences followed by Close or Shutdown on the engine's cooperative scheduler (deadlock = all goroutines blocked, leak = goroutines alive), a stop call racing with Serve itself or issued from inside NewSession, and connection scenarios (incl. STARTTLS overlapping Server.Close, two chunked messages in a row) under a vector-clock happens-before monitor over go-smtp's own loads and stores (incl. append's element writes and sync.WaitGroup's Add-before-Wait rule); unlisted races are additionally looked for with the Go race detector on the natively compiled harness. A bounded check of the happens-before discipline on explored schedules, not a race-freedom proof.",
 }
 CLAIMS = {k: (v, _note(k)) for k, v in _T.items()}
 NA = {}
